@@ -315,3 +315,33 @@ func (l *Ledger) Denoms(addr string) []string {
 	sort.Strings(out)
 	return out
 }
+
+// Want is an expected balance sheet under construction: addr -> denom -> delta.
+type Want map[string]map[string]*big.Int
+
+// Put adds v to the expected delta of (addr, denom).
+func (m Want) Put(addr, denom string, v *big.Int) Want {
+	if m[addr] == nil {
+		m[addr] = map[string]*big.Int{}
+	}
+	if m[addr][denom] == nil {
+		m[addr][denom] = new(big.Int)
+	}
+	m[addr][denom].Add(m[addr][denom], v)
+	return m
+}
+
+// PutCoins adds (sign=+1) or subtracts (sign=-1) every coin.
+func (m Want) PutCoins(addr string, coins sdk.Coins, sign int) Want {
+	for _, c := range coins {
+		v := c.Amount.BigInt()
+		if sign < 0 {
+			v = new(big.Int).Neg(v)
+		}
+		m.Put(addr, c.Denom, v)
+	}
+	return m
+}
+
+// Diff compares a sheet with the expectation: "" when they agree exactly.
+func (m Want) Diff(s *Sheet) string { return s.ExpectOnly(m) }
